@@ -18,7 +18,7 @@ func C04(r *core.Run) {
 		"(R04.2) IsTruncated is only ever set together with NextMarker = the last examined key; the handler derives NextContinuationToken (V2) / NextMarker (V1, delimiter) from it on the arm where it is non-empty; " +
 		"(R04.3) the continuation token is encoded and decoded with the same base64 alphabet and a decode failure answers InvalidToken; (R04.4) after seeking to the marker the entry equal to the marker is skipped; " +
 		"(R04.5) non-paginating backends refuse a non-empty page before touching their store, and the handler retries with the zero page exactly when that error came back and the refusal option is off; " +
-		"(R04.6) max-keys is clamped from the query; marker / continuation-token / start-after feed page.Marker. (R04.6) start-after feeds the marker only where no continuation token is present; (R04.7) the page after a marker inside a common prefix does not report that prefix again."
+		"(R04.6) max-keys is clamped from the query; marker / continuation-token / start-after feed page.Marker. (R04.6) start-after feeds the marker only where no continuation token is present; (R04.7) the page after a marker inside a common prefix does not report that prefix again. (R04.8) the iterator wrapper reports a failed Seek to the following Next. (paging elements) the continuation markers are serialised under the element names the protocol defines."
 	r.NotDecided = "completeness and strict ascent across pages as value statements, that a CommonPrefix is reported once across pages beyond the marker-group rule R04.7, termination as a whole-loop property"
 	rule041(r)
 	rule042(r)
@@ -27,6 +27,8 @@ func C04(r *core.Run) {
 	rule045(r)
 	rule046(r)
 	rule047(r)
+	rule048(r)
+	rulePagingElements(r, "R04.9", "ListBucketResultBase", "ListBucketResult", "ListBucketResultV2")
 }
 
 func rule041(r *core.Run) {
@@ -636,6 +638,36 @@ func rule047(r *core.Run) {
 	}
 	r.Check(seeded, "R04.7", key(fname(r, fn), "marker's common prefix remembered"), p0, "dedupe value seeded from Prefix.Match(page.Marker)",
 		"a page that starts after a marker inside a common prefix reports that prefix again: with delimiter and a page boundary inside a group, the same CommonPrefix appears on consecutive pages")
+	// … and only then: the seeding store lies on the side where the marker's match IS a common prefix
+	// (a marker that is an ordinary key ending in the delimiter, a folder-marker object, was listed under
+	// Contents; its name must not suppress the common prefix of the keys below it)
+	if onMarker != nil && seeded {
+		okCP := true
+		n := 0
+		core.Instrs(fn, func(in ssa.Instruction) {
+			ld, ok := in.(*ssa.UnOp)
+			if !ok || !isLoadOf(r, ld, "gofakes3.PrefixMatch.MatchedPart") || !core.Reaches(onMarker, ld) || !core.CheckedOrGuardedBy(ld, onMarker) {
+				return
+			}
+			// is this load the one feeding the dedupe variable (not the loop's own comparison)?
+			if !r.P.SliceOf(dedupe, core.SliceOpts{Depth: -1}).Values[ld] {
+				return
+			}
+			n++
+			cp := false
+			for _, ec := range expandedConds(ld) {
+				cd := core.CondOf(ec.cond)
+				if isLoadOf(r, cd.X, "gofakes3.PrefixMatch.CommonPrefix") && (cd.Op == 0 || cd.Op == token.ILLEGAL) && ec.truth != cd.Neg {
+					cp = true
+				}
+			}
+			if !cp {
+				okCP = false
+			}
+		})
+		r.Check(okCP && n > 0, "R04.7", key(fname(r, fn), "remembered only when the marker lies inside a common prefix"), p0, "seeded under match.CommonPrefix",
+			"the marker's matched part is remembered although the marker was not grouped under a common prefix: a folder-marker key ('docs/') at a page end suppresses the CommonPrefix of the keys below it on the next page")
+	}
 }
 
 // stripIface peels interface conversions.
@@ -651,4 +683,63 @@ func stripIface(v ssa.Value) ssa.Value {
 		}
 	}
 	return v
+}
+
+// rule048 — a failed Seek is not followed by an iteration from the list head.
+func rule048(r *core.Run) {
+	r.Rule("R04.8", "goskipiter.Iterator: Seek records unconditionally that it happened and stores the inner Seek's outcome; every return of Next that does not hand back the inner iterator's own Next() hands back that stored outcome — after a Seek beyond the last key (a marker after every key, or whose tail was deleted between two pages) the first Next reports 'nothing', it does not start again from the first key")
+	sk := mustFunc(r, "goskipiter.(*Iterator).Seek")
+	nx := mustFunc(r, "goskipiter.(*Iterator).Next")
+	if sk == nil || nx == nil {
+		return
+	}
+	var innerSeek *ssa.Call
+	core.Instrs(sk, func(in ssa.Instruction) {
+		if c, ok := in.(*ssa.Call); ok && c.Call.IsInvoke() && c.Call.Method.Name() == "Seek" {
+			innerSeek = c
+		}
+	})
+	outcomeField, flagField := "", ""
+	flagUncond := false
+	core.Instrs(sk, func(in ssa.Instruction) {
+		st, ok := in.(*ssa.Store)
+		if !ok {
+			return
+		}
+		fa, ok := st.Addr.(*ssa.FieldAddr)
+		if !ok {
+			return
+		}
+		if innerSeek != nil && st.Val == ssa.Value(innerSeek) {
+			outcomeField = r.P.FieldName(fa)
+		}
+		if k, ok := st.Val.(*ssa.Const); ok && k.Value != nil && k.Value.String() == "true" {
+			flagField = r.P.FieldName(fa)
+			flagUncond = true
+			for _, ret := range core.Returns(sk) {
+				if !core.Dominates(st, ret) {
+					flagUncond = false
+				}
+			}
+		}
+	})
+	r.Check(innerSeek != nil && outcomeField != "" && flagField != "" && flagUncond, "R04.8", key(fname(r, sk), "Seek records that it ran and what it found"), r.P.Pos(sk.Pos()), "flag = true always; outcome = inner.Seek(key)",
+		"Seek no longer records unconditionally that it ran together with the inner Seek's outcome: a Seek that found nothing looks to Next as if no Seek had happened")
+	okNext := outcomeField != ""
+	n := 0
+	for _, ret := range core.Returns(nx) {
+		if len(ret.Results) != 1 {
+			continue
+		}
+		n++
+		v := core.BlockLocalLoad(ret.Results[0])
+		if c, ok := v.(*ssa.Call); ok && c.Call.IsInvoke() && c.Call.Method.Name() == "Next" {
+			continue
+		}
+		if ld, ok := v.(*ssa.UnOp); ok && outcomeField != "" && isLoadOf(r, ld, outcomeField) {
+			continue
+		}
+		okNext = false
+	}
+	r.Check(okNext && n >= 2, "R04.8", key(fname(r, nx), "Next after a Seek reports the Seek's outcome"), r.P.Pos(nx.Pos()), "returns inner.Next() or the stored outcome", "Next can return something other than the inner iterator's Next() or the outcome the last Seek stored (e.g. a constant true): after a Seek that found nothing the listing restarts from the first key")
 }
